@@ -347,6 +347,14 @@ def graphs_replay(ctx, mc_module, trace_module, driver_mod, graphs, invariants, 
                                             maxwalks=gr.get("maxwalks"))
         out["edges_total"] += tot
         out["edges_replayed"] += cov
+        if gr.get("pairs"):
+            # in addition, walks that cover PAIRS of consecutive transitions (the abstract state forgets how it was reached,
+            # the implementation may not): gr["pairs"] walks over the line graph, or all of them (True)
+            w2, c2, t2 = walker.edge_cover(walker.line_graph(g), maxlen=gr.get("maxlen", maxlen),
+                                           rng=random.Random(ctx.seed + 1), maxwalks=None if gr["pairs"] is True else gr["pairs"])
+            walks = walks + w2
+            out["pairs_total"] = out.get("pairs_total", 0) + t2
+            out["pairs_replayed"] = out.get("pairs_replayed", 0) + c2
         if gr.get("repeat"):
             # walks through actions whose concretisation is randomised (styles, buffer sizes) are replayed k times
             sub, k = gr["repeat"]
